@@ -386,88 +386,130 @@ theorem snap_mono (F : Fmt) (files : List Bytes) (hne : ∀ f ∈ files, f ≠ [
 
 namespace SnapAux
 
-/-- the "find the exact ending position" block of `ResetPartition` -/
-def rpEndExpr (F : Fmt) (files : List Bytes) (oe : Nat) : Except Err Nat :=
-  let fpe := filePtrOf files oe
-  if rpSnapEnd oe (fileOffset files fpe) then
-    if ¬ (fileOffset files fpe < oe) ∨ ¬ (fpe < files.length) then .error .check
+/-- body of `resetPartition` after the arithmetic, with the two raw offsets as parameters.  It is written
+with the very matchers of `resetPartition`, so that `resetPartition_eq_core` holds syntactically: the
+kernel must never evaluate the tests on the closed `size_t` terms (it would unfold `2^64` in unary). -/
+def rpCore (F : Fmt) (s : Base) (ob oe : Nat) : Except Err Base :=
+    let s := { s with offBegin := ob, offEnd := oe, offCurr := ob }
+    if rpEmpty ob oe then
+      .ok (if rpEmptyClears then { s with chunk := s.chunk.clear, overflow := [] } else s)
     else
-      match files.drop fpe with
-      | [] => .error .oob
-      | f :: _ =>
-        match F.seekRecordBegin (f.drop (rpSeekEnd oe (fileOffset files fpe))) with
-        | .error e => .error e
-        | .ok (n, _) => .ok (oe + n)
-  else .ok oe
+      let fp := filePtrOf s.files ob
+      let fpe := filePtrOf s.files oe
+      let oe' : Except Err Nat :=
+        if rpSnapEnd oe (fileOffset s.files fpe) then
+          if ¬ (fileOffset s.files fpe < oe) ∨ ¬ (fpe < s.files.length) then .error .check
+          else
+            resetPartition.match_3 (fun _ => Except Err Nat) (s.files.drop fpe) (fun _ => .error .oob)
+              fun f _ =>
+              resetPartition.match_1 (fun _ => Except Err Nat)
+                (F.seekRecordBegin (f.drop (rpSeekEnd oe (fileOffset s.files fpe)))) (fun e => .error e)
+                fun n _ => .ok (oe + n)
+        else .ok oe
+      resetPartition.match_5 (fun _ => Except Err Base) oe' (fun e => .error e) fun oe' =>
+        resetPartition.match_3 (fun _ => Except Err Base) (s.files.drop fp) (fun _ => .error .oob)
+          fun f _ =>
+          let r : Except Err (Nat × Nat) :=
+            if rpSnapBegin ob (fileOffset s.files fp) then
+              let seekPos := rpSeekBegin ob (fileOffset s.files fp)
+              resetPartition.match_1 (fun _ => Except Err (Nat × Nat)) (F.seekRecordBegin (f.drop seekPos))
+                (fun e => .error e) fun n consumed => .ok (ob + n, seekPos + consumed)
+            else .ok (ob, 0)
+          resetPartition.match_1 (fun _ => Except Err Base) r (fun e => .error e) fun ob' pos =>
+            beforeFirst { s with offBegin := ob', offEnd := oe', filePtr := fp, fpos := some pos }
 
-/-- the "find the exact starting position" block of `ResetPartition` -/
-def rpBeginExpr (F : Fmt) (files : List Bytes) (ob : Nat) (f : Bytes) : Except Err (Nat × Nat) :=
-  let fp := filePtrOf files ob
-  if rpSnapBegin ob (fileOffset files fp) then
-    let seekPos := rpSeekBegin ob (fileOffset files fp)
-    match F.seekRecordBegin (f.drop seekPos) with
-    | .error e => .error e
-    | .ok (n, consumed) => .ok (ob + n, seekPos + consumed)
-  else .ok (ob, 0)
-
-/-- `resetPartition` with its two blocks named -/
-theorem resetPartition_eq (F : Fmt) (s : Base) (rank nsplit : Nat) :
+theorem resetPartition_eq_core (F : Fmt) (s : Base) (rank nsplit : Nat) :
     resetPartition F s rank nsplit =
       if nsplit = 0 then .error .div
-      else
-        let ntotal := totalSize s.files
-        let nstep := rpStepAlign (rpStepRaw ntotal nsplit) F.align
-        let ob := rpBegin nstep rank ntotal
-        let oe := rpEnd nstep rank ntotal
-        let s1 : Base := { s with offBegin := ob, offEnd := oe, offCurr := ob }
-        if rpEmpty ob oe then
-          .ok (if rpEmptyClears then { s1 with chunk := s1.chunk.clear, overflow := [] } else s1)
-        else
-          match rpEndExpr F s.files oe with
-          | .error e => .error e
-          | .ok oe' =>
-            match s.files.drop (filePtrOf s.files ob) with
-            | [] => .error .oob
-            | f :: _ =>
-              match rpBeginExpr F s.files ob f with
-              | .error e => .error e
-              | .ok (ob', pos) =>
-                beforeFirst { s1 with offBegin := ob', offEnd := oe',
-                                      filePtr := filePtrOf s.files ob, fpos := some pos } := rfl
+      else rpCore F s
+        (rpBegin (rpStepAlign (rpStepRaw (totalSize s.files) nsplit) F.align) rank (totalSize s.files))
+        (rpEnd (rpStepAlign (rpStepRaw (totalSize s.files) nsplit) F.align) rank (totalSize s.files)) := rfl
 
-theorem rpEndExpr_eq_snap (F : Fmt) (files : List Bytes) (oe : Nat) (hoe : oe ≤ totalSize files)
-    (ht : totalSize files < 2^62) : rpEndExpr F files oe = snap F files oe := by
+/-- the "find the exact ending position" block -/
+def rpEndX (F : Fmt) (files : List Bytes) (oe : Nat) : Except Err Nat :=
+  if rpSnapEnd oe (fileOffset files (filePtrOf files oe)) then
+    if ¬ (fileOffset files (filePtrOf files oe) < oe) ∨ ¬ (filePtrOf files oe < files.length) then
+      .error .check
+    else
+      resetPartition.match_3 (fun _ => Except Err Nat) (files.drop (filePtrOf files oe))
+        (fun _ => .error .oob) fun f _ =>
+        resetPartition.match_1 (fun _ => Except Err Nat)
+          (F.seekRecordBegin (f.drop (rpSeekEnd oe (fileOffset files (filePtrOf files oe)))))
+          (fun e => .error e) fun n _ => .ok (oe + n)
+  else .ok oe
+
+/-- the "find the exact starting position" block, on the file `f` that was opened -/
+def rpBeginX (F : Fmt) (files : List Bytes) (ob : Nat) (f : Bytes) : Except Err (Nat × Nat) :=
+  if rpSnapBegin ob (fileOffset files (filePtrOf files ob)) then
+    resetPartition.match_1 (fun _ => Except Err (Nat × Nat))
+      (F.seekRecordBegin (f.drop (rpSeekBegin ob (fileOffset files (filePtrOf files ob)))))
+      (fun e => .error e)
+      fun n consumed => .ok (ob + n, rpSeekBegin ob (fileOffset files (filePtrOf files ob)) + consumed)
+  else .ok (ob, 0)
+
+theorem match5_cases (X : Except Err Nat) (K : Nat → Except Err Base) (r : Except Err Base)
+    (h : resetPartition.match_5 (fun _ => Except Err Base) X (fun e => .error e) K = r) :
+    (∃ e, X = .error e ∧ r = .error e) ∨ (∃ v, X = .ok v ∧ r = K v) := by
+  cases X with
+  | error e => exact Or.inl ⟨e, rfl, h.symm⟩
+  | ok v => exact Or.inr ⟨v, rfl, h.symm⟩
+
+theorem match1_cases (X : Except Err (Nat × Nat)) (K : Nat → Nat → Except Err Base) (r : Except Err Base)
+    (h : resetPartition.match_1 (fun _ => Except Err Base) X (fun e => .error e) K = r) :
+    (∃ e, X = .error e ∧ r = .error e) ∨ (∃ a b, X = .ok (a, b) ∧ r = K a b) := by
+  cases X with
+  | error e => exact Or.inl ⟨e, rfl, h.symm⟩
+  | ok v =>
+    obtain ⟨a, b⟩ := v
+    exact Or.inr ⟨a, b, rfl, h.symm⟩
+
+theorem interior_lt_total (files : List Bytes) (x : Nat) (hx : x ≤ totalSize files)
+    (hb : ¬ x = fileOffset files (filePtrOf files x)) : x < totalSize files := by
+  by_cases hxt : x < totalSize files
+  · exact hxt
+  · have e : x = totalSize files := by omega
+    have := filePtrOf_of_total_le files x (by omega)
+    rw [this] at hb
+    exact absurd e hb
+
+theorem rpEndX_eq_snap (F : Fmt) (files : List Bytes) (oe : Nat) (hoe : oe ≤ totalSize files)
+    (ht : totalSize files < 2^62) : rpEndX F files oe = snap F files oe := by
   have hle := fileOffset_filePtrOf_le files oe
-  unfold rpEndExpr snap
+  unfold rpEndX snap
   simp only []
   by_cases hb : oe = fileOffset files (filePtrOf files oe)
   · rw [if_pos hb, if_neg (by simp [rpSnapEnd]; exact hb)]
   · rw [if_neg hb, if_pos (by simp [rpSnapEnd]; exact hb)]
-    have hxt : oe < totalSize files := by
-      by_cases hxt : oe < totalSize files
-      · exact hxt
-      · have e : oe = totalSize files := by omega
-        have := filePtrOf_of_total_le files oe (by omega)
-        rw [this] at hb
-        exact absurd e hb
+    have hxt := interior_lt_total files oe hoe hb
     have ⟨h1, _⟩ := filePtrOf_lt files oe hxt
     rw [if_neg (by omega)]
     have e : rpSeekEnd oe (fileOffset files (filePtrOf files oe))
         = oe - fileOffset files (filePtrOf files oe) := by
       unfold rpSeekEnd; exact sub64_of_le hle (by omega)
     rw [e]
+    obtain ⟨f, hd, _, _⟩ := drop_filePtrOf files oe hxt
+    rw [hd]
+    simp only []
+    cases F.seekRecordBegin (f.drop (oe - fileOffset files (filePtrOf files oe))) with
+    | error e => rfl
+    | ok r => rfl
 
-theorem rpBeginExpr_fst (F : Fmt) (files : List Bytes) (ob : Nat) (f : Bytes) (rest : List Bytes)
+theorem rpBeginX_snap (F : Fmt) (files : List Bytes) (ob : Nat) (f : Bytes) (rest : List Bytes)
     (hd : files.drop (filePtrOf files ob) = f :: rest) (ht : totalSize files < 2^62)
     (hob : ob ≤ totalSize files) :
-    (match rpBeginExpr F files ob f with
-     | .error e => .error e
-     | .ok (b, _) => .ok b) = snap F files ob := by
+    (∀ e, rpBeginX F files ob f = .error e → snap F files ob = .error e) ∧
+    (∀ b p, rpBeginX F files ob f = .ok (b, p) → snap F files ob = .ok b) := by
   have hle := fileOffset_filePtrOf_le files ob
-  unfold rpBeginExpr snap
+  unfold rpBeginX snap
   simp only []
   by_cases hb : ob = fileOffset files (filePtrOf files ob)
   · rw [if_pos hb, if_neg (by simp [rpSnapBegin]; exact hb)]
+    constructor
+    · intro e h; cases h
+    · intro b p h
+      injection h with h
+      injection h with h1 _
+      rw [h1]
   · rw [if_neg hb, if_pos (by simp [rpSnapBegin]; exact hb), hd]
     have e : rpSeekBegin ob (fileOffset files (filePtrOf files ob))
         = ob - fileOffset files (filePtrOf files ob) := by
@@ -475,8 +517,19 @@ theorem rpBeginExpr_fst (F : Fmt) (files : List Bytes) (ob : Nat) (f : Bytes) (r
     rw [e]
     simp only []
     cases F.seekRecordBegin (f.drop (ob - fileOffset files (filePtrOf files ob))) with
-    | error e => rfl
-    | ok r => rfl
+    | error e0 =>
+      constructor
+      · intro e h; injection h with h; rw [h]
+      · intro b p h; cases h
+    | ok r =>
+      obtain ⟨n, c⟩ := r
+      constructor
+      · intro e h; cases h
+      · intro b p h
+        injection h with h
+        injection h with h1 _
+        show Except.ok (ob + n) = Except.ok b
+        rw [h1]
 
 /-- `BeforeFirst` on a state whose end offset is in range -/
 theorem beforeFirst_spec (t t' : Base) (hne : ∀ f ∈ t.files, f ≠ []) (hoe : t.offEnd ≤ totalSize t.files)
@@ -509,12 +562,12 @@ theorem beforeFirst_spec (t t' : Base) (hne : ∀ f ∈ t.files, f ≠ []) (hoe 
             = t.offBegin - fileOffset t.files (filePtrOf t.files t.offBegin) :=
           sub64_of_le hle (by omega)
         refine ⟨⟨rfl, rfl, Or.inr ⟨rfl, rfl, ?_⟩⟩, ⟨hne, hoe, Or.inr ?_⟩, rfl, rfl, rfl, rfl, rfl⟩
-        · show some _ = some _
+        · show some (sub64 _ _) = some _
           rw [e]
         · refine ⟨_, f, rfl, hd, ?_, ?_, Nat.le_refl _, Nat.le_of_lt hlt⟩
           · show sub64 _ _ ≤ _
             rw [e]; omega
-          · show t.offBegin = _ + sub64 _ _
+          · show t.offBegin = fileOffset t.files (filePtrOf t.files t.offBegin) + sub64 _ _
             rw [e]; omega
 
 theorem beforeFirst_ok (t : Base) (p : Nat) (hp : t.fpos = some p)
@@ -532,6 +585,86 @@ theorem beforeFirst_ok (t : Base) (p : Nat) (hp : t.fpos = some p)
     rw [if_neg (by omega)]
     exact ⟨_, rfl⟩
 
+theorem rpCore_empty (F : Fmt) (s : Base) (ob : Nat) :
+    rpCore F s ob ob = .ok { s with offBegin := ob, offEnd := ob, offCurr := ob,
+                                    chunk := s.chunk.clear, overflow := [] } := by
+  unfold rpCore
+  simp only []
+  rw [if_pos (by simp [rpEmpty])]
+  simp only [rpEmptyClears_true, if_true]
+
+/-- what `rpCore` does when the raw range is not empty: both offsets are snapped (`snap`), then
+`BeforeFirst` runs on the snapped range -/
+theorem rpCore_cases (F : Fmt) (s : Base) (ob oe : Nat) (ht : totalSize s.files < 2^62)
+    (hlt : ob < oe) (hoe : oe ≤ totalSize s.files) :
+    (∃ e, snap F s.files oe = .error e ∧ rpCore F s ob oe = .error e) ∨
+    (∃ oe' e, snap F s.files oe = .ok oe' ∧ snap F s.files ob = .error e ∧
+        rpCore F s ob oe = .error e) ∨
+    (∃ oe' ob' pos, snap F s.files oe = .ok oe' ∧ snap F s.files ob = .ok ob' ∧
+        rpCore F s ob oe = beforeFirst { s with offBegin := ob', offEnd := oe', offCurr := ob,
+                                                filePtr := filePtrOf s.files ob, fpos := some pos }) := by
+  generalize hr : rpCore F s ob oe = r
+  unfold rpCore at hr
+  simp only [] at hr
+  rw [if_neg (by simp [rpEmpty]; omega)] at hr
+  have hE := rpEndX_eq_snap F s.files oe hoe ht
+  rcases match5_cases _ _ _ hr with ⟨e, hX, rfl⟩ | ⟨oe', hX, hr⟩
+  · have hX' : rpEndX F s.files oe = .error e := hX
+    exact Or.inl ⟨e, by rw [← hE, hX'], rfl⟩
+  · have hX' : rpEndX F s.files oe = .ok oe' := hX
+    right
+    obtain ⟨fB, hdB, _, _⟩ := drop_filePtrOf s.files ob (by omega)
+    rw [hdB] at hr
+    simp only [] at hr
+    have ⟨hB1, hB2⟩ := rpBeginX_snap F s.files ob fB _ hdB ht (by omega)
+    rcases match1_cases _ _ _ hr.symm with ⟨e, hY, rfl⟩ | ⟨ob', pos, hY, hr⟩
+    · have hY' : rpBeginX F s.files ob fB = .error e := hY
+      exact Or.inl ⟨oe', e, by rw [← hE, hX'], hB1 e hY', rfl⟩
+    · have hY' : rpBeginX F s.files ob fB = .ok (ob', pos) := hY
+      exact Or.inr ⟨oe', ob', pos, by rw [← hE, hX'], hB2 _ _ hY', hr⟩
+
+theorem rpCore_spec (F : Fmt) (hS : SeekOk F) (s s' : Base) (ob oe : Nat)
+    (hne : ∀ f ∈ s.files, f ≠ []) (ht : totalSize s.files < 2^62) (hle : ob ≤ oe)
+    (hoe : oe ≤ totalSize s.files) (h : rpCore F s ob oe = .ok s') :
+    ((ob = oe ∧ s'.offBegin = ob ∧ s'.offEnd = ob) ∨
+     (ob < oe ∧ snap F s.files ob = .ok s'.offBegin ∧ snap F s.files oe = .ok s'.offEnd)) ∧
+    Clean s' ∧ RInv s' ∧ s'.files = s.files ∧ s'.bufWords = s.bufWords ∧
+    s'.chunk.dataWords = s.chunk.dataWords := by
+  by_cases he : ob = oe
+  · subst he
+    rw [rpCore_empty] at h
+    injection h with h; subst h
+    exact ⟨Or.inl ⟨rfl, rfl, rfl⟩, ⟨rfl, rfl, Or.inl (Nat.le_refl _)⟩,
+      ⟨hne, hoe, Or.inl (Nat.le_refl _)⟩, rfl, rfl, rfl⟩
+  · have hlt : ob < oe := by omega
+    rcases rpCore_cases F s ob oe ht hlt hoe with ⟨e, _, h1⟩ | ⟨oe', e, _, _, h1⟩ |
+        ⟨oe', ob', pos, hse, hsb, h1⟩
+    · rw [h1] at h; cases h
+    · rw [h1] at h; cases h
+    · rw [h1] at h
+      have hoe' := (snap_bounds F s.files hne hS _ _ hoe hse).2
+      obtain ⟨c1, c2, c3, c4, c5, c6, c7⟩ := beforeFirst_spec _ s' (by exact hne) (by exact hoe')
+        (by exact ht) h
+      refine ⟨Or.inr ⟨hlt, ?_, ?_⟩, c1, c2, c3, c6, c7⟩
+      · rw [c4]; exact hsb
+      · rw [c5]; exact hse
+
+theorem rpCore_ok (F : Fmt) (hS : SeekOk F) (s : Base) (ob oe : Nat)
+    (hne : ∀ f ∈ s.files, f ≠ []) (ht : totalSize s.files < 2^62) (hle : ob ≤ oe)
+    (hoe : oe ≤ totalSize s.files) (b e : Nat) (hb : snap F s.files ob = .ok b)
+    (he : snap F s.files oe = .ok e) : ∃ s', rpCore F s ob oe = .ok s' := by
+  by_cases heq : ob = oe
+  · subst heq
+    exact ⟨_, rpCore_empty F s ob⟩
+  · have hlt : ob < oe := by omega
+    rcases rpCore_cases F s ob oe ht hlt hoe with ⟨e', h0, _⟩ | ⟨oe', e', _, h0, _⟩ |
+        ⟨oe', ob', pos, hse, hsb, h1⟩
+    · rw [he] at h0; cases h0
+    · rw [hb] at h0; cases h0
+    · rw [h1]
+      have hoe' := (snap_bounds F s.files hne hS _ _ hoe hse).2
+      exact beforeFirst_ok _ pos rfl (by exact hoe')
+
 end SnapAux
 open SnapAux
 
@@ -547,45 +680,17 @@ theorem resetPartition_spec (F : Fmt) (ha : F.align = 1 ∨ F.align = 4) (hS : S
         bnd F s.files n k = .ok s'.offBegin ∧ bnd F s.files n (k + 1) = .ok s'.offEnd)) ∧
     Clean s' ∧ RInv s' ∧ s'.files = s.files ∧ s'.bufWords = s.bufWords ∧
     s'.chunk.dataWords = s.chunk.dataWords := by
-  rw [resetPartition_eq, if_neg (by omega)] at h
-  simp only [rpBegin_eq_rawBnd F s.files k n ha ht hk hn, rpEnd_eq_rawBnd F s.files k n ha ht hk hn] at h
+  rw [resetPartition_eq_core, if_neg (by omega), rpBegin_eq_rawBnd F s.files k n ha ht hk hn,
+    rpEnd_eq_rawBnd F s.files k n ha ht hk hn] at h
   have hmono := rawBnd_mono F s.files n k (k + 1) (by omega)
   have hoeT := rawBnd_le F s.files n (k + 1)
-  by_cases he : rawBnd F s.files n k = rawBnd F s.files n (k + 1)
-  · rw [if_pos (by simp [rpEmpty]; exact he)] at h
-    simp only [rpEmptyClears_true, if_true] at h
-    injection h with h; subst h
-    refine ⟨Or.inl ⟨he, by unfold bnd; rw [he], rfl, he.symm⟩, ⟨rfl, rfl, Or.inl ?_⟩,
-      ⟨hne, hoeT, Or.inl ?_⟩, rfl, rfl, rfl⟩
-    · show rawBnd F s.files n (k + 1) ≤ rawBnd F s.files n k
-      omega
-    · show rawBnd F s.files n (k + 1) ≤ rawBnd F s.files n k
-      omega
-  · rw [if_neg (by simp [rpEmpty]; exact he)] at h
-    have hlt : rawBnd F s.files n k < rawBnd F s.files n (k + 1) := by omega
-    rw [rpEndExpr_eq_snap F s.files _ hoeT ht] at h
-    cases hse : snap F s.files (rawBnd F s.files n (k + 1)) with
-    | error e => rw [hse] at h; cases h
-    | ok oe' =>
-      rw [hse] at h
-      simp only [] at h
-      obtain ⟨f, hd, _, _⟩ := drop_filePtrOf s.files (rawBnd F s.files n k) (by omega)
-      rw [hd] at h
-      simp only [] at h
-      have hfst := rpBeginExpr_fst F s.files (rawBnd F s.files n k) f _ hd ht (by omega)
-      cases hbe : rpBeginExpr F s.files (rawBnd F s.files n k) f with
-      | error e => rw [hbe] at h; cases h
-      | ok r =>
-        obtain ⟨ob', pos⟩ := r
-        rw [hbe] at h hfst
-        simp only [] at h hfst
-        have hoe' := (snap_bounds F s.files hne hS _ _ hoeT hse).2
-        obtain ⟨c1, c2, c3, c4, c5, c6, c7⟩ := beforeFirst_spec _ s' hne hoe' ht h
-        refine ⟨Or.inr ⟨hlt, ?_, ?_⟩, c1, c2, c3, c6, c7⟩
-        · unfold bnd; rw [c4]; exact hfst.symm
-        · unfold bnd; rw [c5]; exact hse
+  obtain ⟨h1, h2⟩ := rpCore_spec F hS s s' _ _ hne ht hmono hoeT h
+  refine ⟨?_, h2⟩
+  rcases h1 with ⟨e1, e2, e3⟩ | ⟨e1, e2, e3⟩
+  · exact Or.inl ⟨e1, by unfold bnd; rw [e1], e2, e3⟩
+  · exact Or.inr ⟨e1, e2, e3⟩
 
-/-- whenever both boundaries exist, the state holds them or an empty range, and then they are equal -/
+/-- whenever both boundaries exist, the state holds them, or an empty range and then they are equal -/
 theorem resetPartition_range (F : Fmt) (ha : F.align = 1 ∨ F.align = 4) (hS : SeekOk F) (s s' : Base)
     (k n : Nat) (hne : ∀ f ∈ s.files, f ≠ []) (ht : totalSize s.files < 2^62) (hk : k < n)
     (hn : n < 2^32) (h : resetPartition F s k n = .ok s')
@@ -607,28 +712,10 @@ theorem resetPartition_ok (F : Fmt) (ha : F.align = 1 ∨ F.align = 4) (hS : See
     (k n : Nat) (hne : ∀ f ∈ s.files, f ≠ []) (hfiles : s.files ≠ []) (ht : totalSize s.files < 2^62)
     (hk : k < n) (hn : n < 2^32) (b e : Nat) (hb : bnd F s.files n k = .ok b)
     (he : bnd F s.files n (k + 1) = .ok e) : ∃ s', resetPartition F s k n = .ok s' := by
-  rw [resetPartition_eq, if_neg (by omega)]
-  simp only [rpBegin_eq_rawBnd F s.files k n ha ht hk hn, rpEnd_eq_rawBnd F s.files k n ha ht hk hn]
+  rw [resetPartition_eq_core, if_neg (by omega), rpBegin_eq_rawBnd F s.files k n ha ht hk hn,
+    rpEnd_eq_rawBnd F s.files k n ha ht hk hn]
   have hmono := rawBnd_mono F s.files n k (k + 1) (by omega)
   have hoeT := rawBnd_le F s.files n (k + 1)
-  by_cases hraw : rawBnd F s.files n k = rawBnd F s.files n (k + 1)
-  · rw [if_pos (by simp [rpEmpty]; exact hraw)]
-    exact ⟨_, rfl⟩
-  · rw [if_neg (by simp [rpEmpty]; exact hraw)]
-    unfold bnd at hb he
-    rw [rpEndExpr_eq_snap F s.files _ hoeT ht, he]
-    simp only []
-    obtain ⟨f, hd, _, _⟩ := drop_filePtrOf s.files (rawBnd F s.files n k) (by omega)
-    rw [hd]
-    simp only []
-    have hfst := rpBeginExpr_fst F s.files (rawBnd F s.files n k) f _ hd ht (by omega)
-    rw [hb] at hfst
-    cases hbe : rpBeginExpr F s.files (rawBnd F s.files n k) f with
-    | error e => rw [hbe] at hfst; cases hfst
-    | ok r =>
-      obtain ⟨ob', pos⟩ := r
-      simp only []
-      have hoe' := (snap_bounds F s.files hne hS _ _ hoeT he).2
-      exact beforeFirst_ok _ pos rfl hoe'
+  exact rpCore_ok F hS s _ _ hne ht hmono hoeT b e hb he
 
 end DmlcModel.Split
